@@ -32,26 +32,26 @@ CLAIMS = {
             "DESIGN.md 5/C05", "status().waiting counting blocked getters is NOT claimed (status().waiting is always 0 in this implementation; reproduced, see DESIGN.md section 7 D7). remove/try_remove/timeout_remove, Pool::new/from_config and From<iterator> (the iterator retyped to the Vec it collects to) are under contract as well. "),
     "C06": ("close(): closes the semaphore, max_size 0, idle objects released and detached (isolation); get on a closed pool gives Closed on both acquisition paths and touches nothing; "
             "return to a closed pool discards; objects outliving the pool (Weak upgrade fails) are no-ops on the pool.",
-            "DESIGN.md 5/C06", "The race of close() with a concurrent resize() (closed pool ends with max_size > 0) is a reproduced defect that is documented in DESIGN.md section 7 but not yet expressed as an obligation; waking of waiters by Semaphore::close is tokio's contract. "),
+            "DESIGN.md 5/C06", "The race of close() with a concurrent resize() (closed pool ends with max_size > 0) is a reproduced defect, expressed as the obligations `C06 resize.closed_pool_stays_empty` and `C06 close.leaves_pool_closed_and_empty` of the interference variant, which fail and are recorded as KNOWN FINDINGS (DESIGN.md 0.5); waking of waiters by Semaphore::close is tokio's contract. "),
     "C07": ("resize(): max_size set, idle surplus released (and detached), objects in use untouched, grow adds exactly the new capacity, order kept, debt invariant preserved under interference. "
             "The exact free-permit equation P = max(0, max_size - outstanding) is a KNOWN FINDING (fails on the real code, replays in /verif/replay).",
             "DESIGN.md 5/C07", ""),
     "C08": ("Pop is front for Fifo and back for Lifo, return pushes to the back, retain and resize keep relative order (loop invariants on the real loops); Manager::create is only reached after an "
-            "empty pop; builder/build/from_builder/status/timeouts/is_closed/manager contain no call into manager, hooks or predicates (they are frame-only functions under contract).",
+            "empty pop; builder/build/from_builder/status/timeouts/is_closed/manager contain no call into manager, hooks or predicates (they are frame-only functions under contract); on the get path (isolation variant): the idle objects are offered in queue order, the untried ones keep their order, Manager::create is asked at most once and only after every idle object was tried.",
             "DESIGN.md 5/C08", "'Nothing happens in the background' is checked syntactically by the extractor (no spawn in the unit), not proved. "),
     "C09": ("retain(): full functional contract on the real loop (each idle object visited once in order; kept = exactly the approved, removed = exactly the rejected, in order; retained count; size, capacity, "
             "checked-out objects untouched; one detach per removed); take(): inner value handed over, size-1, slot freed iff not over limit, one detach; global count invariant created = size + detached + pending.",
             "DESIGN.md 5/C09", "Object identity of detach is covered for take/retain; for discard paths the count invariant is what is proved. "),
     "C10": ("apply_timeout under contract (verbatim body); zero wait uses try_acquire only; create timeout surfaces as Timeout(Create) with tokens settled; recycle timeout = rejected object; missing runtime => "
             "NoRuntimeSpecified from build() (configured) and from get() (per call) with the pool untouched; unmanaged timeout table.",
-            "DESIGN.md 5/C10", "Which of 'deadline' and 'completion' wins is inside Runtime::timeout (trusted contract); virtual-clock orderings are not explored. "),
+            "DESIGN.md 5/C10", "Which of 'deadline' and 'completion' wins is inside tokio's / async-std's timeout (trusted models); the contract of deadpool_runtime::Runtime::timeout that the pool units assume is proved from them in unit rt; virtual-clock orderings are not explored. "),
     "C11": ("status(): available <= size, not both available and waiting, waiting <= callers inside get, size = idle + in hand + out, size > max_size only with shrink debt, no counter wraps "
             "(every fetch_sub / -= is an obligation); exact figures at quiescent points (lemma using the idle-covered invariant).",
             "DESIGN.md 5/C11", ""),
     "C12": ("Unmanaged pool: panic freedom of every extracted public function under interference that includes close(); after close both semaphores closed, queue empty, later get => Closed, add => (same object, Closed), "
             "returned objects dropped.", "DESIGN.md 5/C12", ""),
     "C13": ("created never assigned after construction (frame of every function taking &mut ObjectInner), recycle_count + 1 and recycled = now (monotone clock model) only on successful recycle, hooks and "
-            "Manager::recycle see the pre-call metrics (ghost history records the metrics argument), retain passes the stored metrics, Object::metrics returns the stored value.",
+            "Manager::recycle see the pre-call metrics (ghost history records the metrics argument), retain passes the stored metrics, Object::metrics returns the stored value; Metrics::age counts from `created`, Metrics::last_used from the last recycle, else from creation.",
             "DESIGN.md 5/C13", ""),
 }
 
@@ -62,7 +62,7 @@ CLAIMS["C18"] = ("Config::get_pg_config (real body, extracted) against a setter/
 
 CLAIMS["C17"] = ("redis Manager::recycle (real body, extracted; the builder chain of redis::Pipeline modelled with prophecy-style &mut Self contracts): the pipeline sent is exactly [UNWATCH (reply ignored), PING <n>] with "
             "n the decimal of the pre-increment ping_number, ping_number is used once, Ok iff the echo equals n, an error reply is reported as Backend error, any other echo is rejected, cancellation unwinds.",
-            "DESIGN.md 5/C17", "What UNWATCH does on the server and that a rejected connection is discarded and replaced (that is C04's contract of try_recycle in unit mg) are outside this unit; Connection::take is a one-line forward to Object::take and is not extracted; freshness of n holds until the counter wraps (A8). ")
+            "DESIGN.md 5/C17", "What UNWATCH does on the server and that a rejected connection is discarded and replaced (that is C04's contract of try_recycle in unit mg) are outside this unit; Connection::take is under contract (it is Object::take of its own object; what Object::take does to the pool is proved in unit mg); freshness of n holds until the counter wraps (A8). ")
 CLAIMS["C19"] = ("all three flavours (units rdc, rdk, rds; real bodies): Config::builder - both URL(s) and connection structure(s) => UrlAndConnectionSpecified, neither => the default local server, otherwise exactly the named servers in order "
             "(the iter().map().collect() of the URL list expanded to its loop, invariant), bad parameters => ConfigError::Redis, pool section passed through, defaults when omitted; create_pool - config errors as Config(..), timeouts without runtime as Build(..) and never a pool, "
             "pool section and runtime reach the pool; Manager::new / from_config of each flavour connect to what the parameters name (read_from_replicas, service name, node connection info, server type passed on); "
@@ -80,7 +80,7 @@ CLAIMS["C16"] = ("postgres unit (real bodies): RecyclingMethod::query is the doc
             "StatementCache: key = (query text, parameter types) - both components - for get/insert/remove, size() = number of cached keys (cache invariant), prepare_typed: a hit returns the cached statement with NO message sent on the connection, a miss sends exactly one "
             "prepare on the passed connection and stores the result under the same key, a failure caches nothing; StatementCaches::attach adds exactly the cache, detach removes exactly the entries of that cache (Vec::retain expanded to its loop, invariant); "
             "Manager::create registers the new client's cache, Manager::detach unregisters it. With C09's detach-exactly-once this gives registry = caches of owned clients.",
-            "DESIGN.md 5/C16", "StatementCaches::clear/remove are proved against a heap of live caches addressed by the identity a Weak carries (every registered live cache is cleared / loses exactly that key, no other cache is touched); a failed check on an open connection is an error (query outcome log). NOT covered: ClientWrapper::prepare_cached* (one-line forwards needing &self->&mut), that a statement is valid on the server, server-side failures. The text of the clean-up script is a constant of /repo and is not checked. HashMap with a lawful derived Hash/Eq, Cow as its contents and Deref forwarding of ClientWrapper are modelled (trusted). ")
+            "DESIGN.md 5/C16", "StatementCaches::clear/remove are proved against a heap of live caches addressed by the identity a Weak carries (every registered live cache is cleared / loses exactly that key, no other cache is touched); a failed check on an open connection is an error (query outcome log). ClientWrapper::prepare_cached / prepare_typed_cached (this client's cache and this client's connection) and StatementCache::prepare (= prepare_typed without types) are under contract as well. NOT covered: that a statement is valid on the server, server-side failures. The text of the clean-up script is a constant of /repo and is not checked. HashMap with a lawful derived Hash/Eq, Cow as its contents and Deref forwarding of ClientWrapper are modelled (trusted). ")
 
 CLAIMS["C14"] = ("SyncWrapper (unit sy; real bodies of new, interact, is_mutex_poisoned, Drop::drop, with the two `move ||` closures lifted mechanically to functions of their own): calls into user code (the creating closure, the closure given to interact, "
             "the destructor of the wrapped value) carry a flag saying whether the code runs inside a spawn_blocking job; their contracts require it, so a closure call or a destruction outside a job fails a named precondition; "
@@ -132,7 +132,7 @@ def main():
         "engines": [
             {"name": "vx", "path": "tools/vx", "serves_properties": sorted(CLAIMS), "kind_free_text": "syn-based mechanical extractor: /repo function bodies + overlay contracts -> one Verus file per (unit, variant)"},
             {"name": "verus", "path": "/opt/veriftools/verus", "serves_properties": sorted(CLAIMS), "kind_free_text": "deductive verifier (z3) deciding every obligation"},
-            {"name": "replay", "path": "replay", "serves_properties": ["C05", "C06", "C07", "C09", "C10", "C12"], "kind_free_text": "concrete histories of known findings / fixed defects run against the real code (auxiliary, not deciding)"},
+            {"name": "replay", "path": "replay", "serves_properties": ["C01", "C02", "C04", "C05", "C06", "C07", "C08", "C09", "C10", "C11", "C12", "C13"], "kind_free_text": "concrete histories of known findings / fixed defects, a random-history witness search on the real pools and differential tests of the primitive models (auxiliary, never deciding)"},
         ],
         "checks": checks,
         "notes": "See DESIGN.md. known_findings.json lists recorded defects (C07) and the fix: commits made in /repo.",
